@@ -226,7 +226,7 @@ def adjacency_init(prog, cls, fn):
                         '([[c] or [] for c in range(bins*bins)])' % fn.qualname)
 
 
-def check_adjacents(ck, prog, cls):
+def check_adjacents(ck, prog, cls, deep=False):
     fn = cls.lookup('find_adjacents')
     if fn is None:
         raise AnalysisError('anchor method find_adjacents vanished')
@@ -320,9 +320,11 @@ def check_adjacents(ck, prog, cls):
         witness_adjacency(ck, prog, cls, fn, has_self)
     else:
         ck.floor('adjacency position cases', n_cases, 10)
+        if deep:
+            witness_adjacency(ck, prog, cls, fn, has_self, cross_check=True)
 
 
-def witness_adjacency(ck, prog, cls, fn, has_self=True):
+def witness_adjacency(ck, prog, cls, fn, has_self=True, cross_check=False):
     """Fallback when a guard of find_adjacents is not an affine position test: look for a concrete
     small grid on which the extracted lists are wrong.  A witness is a genuine violation; finding
     none proves nothing, so the check then reports that it cannot conclude."""
@@ -330,7 +332,10 @@ def witness_adjacency(ck, prog, cls, fn, has_self=True):
     fors = [n for n in ast.walk(fn.node) if isinstance(n, ast.For)]
 
     class Concrete(Hooks):
-        pass
+        def field(self, obj, name, st):
+            # keep the adjacency container opaque so that every append is an effect on
+            # item(ADJ, <cell>) whatever the code bound to self.adjacents
+            return ADJ if name == 'adjacents' else None
     for bins in range(1, 6):
         st = base_state()
         st.fields[('self', 'bins_per_side')] = Sym.const(bins)
@@ -357,6 +362,9 @@ def witness_adjacency(ck, prog, cls, fn, has_self=True):
                       'its 3x3 block is %s' % (q, bins, bins, c, x, y, sorted(got.get(c, set())),
                                                sorted(want)), fn.loc(), key=q + '::adjacency')
                 return
+    if cross_check:
+        ck.ob('C13-D1-adjacency', '%s[small-grid cross-check, bins 1..5]' % q, True)
+        return
     raise AnalysisError('%s: a guard is not an affine position test and no small-grid witness of '
                         'a wrong neighbourhood exists; cannot conclude' % q)
 
@@ -838,7 +846,7 @@ def run(ck, prog, tier):
     poly.INT_VARS.clear()
     try:
         poly.INT_VARS.update(['B', 'PC', 'k', 'p'])
-        check_adjacents(ck, prog, cls)
+        check_adjacents(ck, prog, cls, tier == 'thorough')
         check_init(ck, prog, cls)
         check_nearest(ck, prog, cls)
         check_remove(ck, prog, cls)
